@@ -188,3 +188,148 @@ def register(generators, gm):
         except TranslateError as e:
             raise gm.GenError(str(e))
     generators["StreamFn"] = gen
+    register_wincon(generators, gm)
+
+
+# ===================================================================================
+# crates/anstream/src/wincon.rs -> coq/Generated/WinconStreamFn.v (C18)
+#
+# TRANSLATED: cap_wincon_color, write_all, write, write_fmt and
+# <WinconStream as io::Write>::{write, flush, write_all, write_fmt}; hand model Model/WinconStream.v,
+# proofs Proofs/WinconStreamGen.v.  Vocabulary: `raw: &mut dyn anstyle_wincon::WinconStream` is the
+# scripted console (`write_colored` = con_write_colored, `flush` = wc_raw_flush); `state.extract_next(buf)`
+# (crates/anstream/src/adapter/wincon.rs, another area) is a LAZY iterator (wci_enter / wci_new / wci_next
+# over Model/Wincon.wincon_next); `printable.as_bytes()` is str_bytes (the model keeps runs as code points);
+# Style::get_fg_color / get_bg_color are the record fields; Ansi256Color::into_ansi is idx_into_ansi;
+# io::Error::new(kind, msg) is the kind.  Pinned: write_vectored, fmt::Adapter (as for strip.rs).
+CONSOLE = ("coq", "console")
+WBYTES = ("struct", "WinconBytes")
+STYLE = ("struct", "Style")
+COLOR = ("enum", "Color")
+EKIND = ("enum", "ErrorKind")
+CHARS = ("list", ("int", "char"))
+ANSI = ("int", "u8")
+
+
+def m_get_fg(em, e, rt, rty, env, k):
+    return k("(s_fg %s)" % rt, ("opt", COLOR), env)
+
+
+def m_get_bg(em, e, rt, rty, env, k):
+    return k("(s_bg %s)" % rt, ("opt", COLOR), env)
+
+
+def m_opt_and_then(em, e, rt, rty, env, k):
+    a = e.args[0] if len(e.args) == 1 else None
+    if a is None or a.kind != "path" or em.fn_shapes.get(a.segs[-1]) is None:
+        raise EmitError("and_then: only a translated function is modelled as the argument")
+    shape = em.fn_shapes[a.segs[-1]]
+    if shape.get("self") or len(shape["params"]) != 1 or shape["ret"][0] != "opt":
+        raise EmitError("and_then: unexpected shape of %s" % a.segs[-1])
+    x = em.fresh("x")
+    if shape["total"]:
+        return k("(match %s with Some %s => %s %s | None => None end)" % (rt, x, shape["coq"], x), shape["ret"], env)
+    return em.bind("(match %s with Some %s => %s %s | None => Some None end)" % (rt, x, shape["coq"], x), shape["ret"], env, k, hint="a")
+
+
+def m_str_as_bytes(em, e, rt, rty, env, k):
+    if rty != CHARS:
+        raise EmitError("as_bytes on %r" % (rty,))
+    return k("(str_bytes %s)" % rt, BYTES, env)
+
+
+def m_into_ansi(em, e, rt, rty, env, k):
+    return k("(idx_into_ansi %s)" % rt, ("opt", ANSI), env)
+
+
+def m_err_kind(em, e, rt, rty, env, k):
+    return k(rt, rty, env)
+
+
+def f_error_new(em, e, env, k):
+    if len(e.args) != 2:
+        raise EmitError("io::Error::new takes two arguments")
+    return em.expr(e.args[0], env, k)
+
+
+def wc_inner_fuel(env):
+    # std's bound for a write_all-style loop: every iteration consumes a script entry or the buffer
+    return "(S (length (con_script %s) + length %s))" % (env.get("raw").coq, env.get("buf").coq)
+
+
+WVOCAB = {
+    "result": {"err": "ekind", "enum": "ErrorKind"},
+    "loop_ret_state": True,
+    "no_transparent": ["as_bytes"],
+    "type_alias": {"S": CONSOLE, "AnsiColor": ANSI},
+    "enums": {
+        "Color": {"coq": "colour", "variants": {}, "payload": {"Ansi": ("CAnsi", [ANSI]), "Ansi256": ("CIdx", [ANSI]), "Rgb": ("CRgb", 3)}},
+        "ErrorKind": {"coq": "ekind", "eqb": "ekind_eqb", "variants": {x: x for x in ("Interrupted", "WouldBlock", "Other", "WriteZero")}},
+    },
+    "structs": {
+        "WinconBytes": {"coq": "wstream", "var": "wb", "fields": {}, "check": False},
+        "Style": {"coq": "sstyle", "var": "sty", "fields": {}, "check": False},
+        "WinconStream": {"coq": "wcstream", "var": "ws", "fields": {
+            "raw": ("wcs_raw", "set_wcs_raw", CONSOLE),
+            "state": ("wcs_state", "set_wcs_state", WBYTES),
+        }},
+    },
+    "consts": {},
+    "param_types": {"raw": CONSOLE, "args": ("list", BYTES)},
+    "lazy_iters": {("WinconBytes", "extract_next"): {"enter": "wci_enter", "new": "wci_new", "next": "wci_next", "elt": ("tuple", (STYLE, CHARS))}},
+    "transparent_places": ["as_locked_write"],
+    "fuel": {"write_all": ["(S (S (length buf)))", wc_inner_fuel]},
+    "fns": {"Adapter::new": f_adapter_new, "Error::new": f_error_new},
+    "methods": {
+        ("Style", "get_fg_color"): m_get_fg,
+        ("Style", "get_bg_color"): m_get_bg,
+        ("opt", "and_then"): m_opt_and_then,
+        ("list", "as_bytes"): m_str_as_bytes,
+        ("int", "into_ansi"): m_into_ansi,
+        ("ErrorKind", "kind"): m_err_kind,
+        ("adapter", "write_fmt"): m_adapter_write_fmt,
+        ("coq", "as_locked_write"): m_as_locked_write,
+        ("coq", "write_colored"): {"coq": "con_write_colored", "self": "inout", "params": [("in", ("opt", ANSI)), ("in", ("opt", ANSI)), ("in", BYTES)],
+                                   "ret": res(USZ), "total": True, "cfg": False},
+        ("coq", "flush"): {"coq": "wc_raw_flush", "self": "inout", "params": [], "ret": res(UNIT), "total": True, "cfg": False},
+    },
+    "opaque": {},
+}
+
+WHEADER = "(* GENERATED by tools/gen_fn_stream.py (tools/rs2v) from crates/anstream/src/wincon.rs -- do not edit *)"
+WREQ = """From Coq Require Import NArith List Bool.
+From AV Require Import Generated.Table Spec.Utf8 Spec.Vt Spec.Sgr Spec.Io Model.Base Model.Imp Model.Utf8parse Model.Parser
+  Model.Strip Model.Wincon Model.Stream Model.WinconStream.
+Import ListNotations.
+Local Open Scope N_scope.
+Local Open Scope bool_scope."""
+
+PIN_WC_WRITE_VECTORED = "4c2c6140858fd76f"
+
+
+def register_wincon(generators, gm):
+    def gen():
+        try:
+            src = gm.read("crates/anstream/src/wincon.rs")
+            fmt = gm.read("crates/anstream/src/fmt.rs")
+            v = dict(WVOCAB)
+            v["opaque"] = {"WinconStream::write_vectored": PIN_WC_WRITE_VECTORED}
+            tr = {"trait": "Write"}
+            out = translate(src, v, [
+                ("cap_wincon_color", None, "g_cap_wincon_color", {}),
+                ("write_all", None, "g_wc_write_all", {}),
+                ("write", None, "g_wc_write", {}),
+                ("write_fmt", None, "g_wc_write_fmt", {}),
+                ("write", "WinconStream", "g_wcs_write", tr),
+                ("flush", "WinconStream", "g_wcs_flush", tr),
+                ("write_all", "WinconStream", "g_wcs_write_all", tr),
+                ("write_fmt", "WinconStream", "g_wcs_write_fmt", tr),
+            ], WHEADER, WREQ, {})
+            for name, pin in (("new", PIN_ADAPTER_NEW), ("write_fmt", PIN_ADAPTER_WRITE_FMT), ("write_str", PIN_ADAPTER_WRITE_STR)):
+                h = token_hash(fn_source(fmt, name, "Adapter"))
+                if h != pin:
+                    raise TranslateError("fmt::Adapter::%s changed (token hash %s, pinned %s): it is modelled by hand (fmt_adapter_write_fmt) and must be re-read" % (name, h, pin))
+            return out + "\n"
+        except TranslateError as e:
+            raise gm.GenError(str(e))
+    generators["WinconStreamFn"] = gen
